@@ -194,3 +194,109 @@ func selectSendUntested(in ssa.Instruction, isChan, isVal func(ssa.Value) bool) 
 	}
 	return false
 }
+
+// pathObs: what one entry→site path saw.
+type pathObs struct {
+	vals   []ssa.Value     // the requested values with phis resolved along the path
+	passed map[string]bool // named instruction / edge marks crossed
+	trace  []int
+}
+
+// enumPathsTo enumerates the edge-simple paths from the entry to site,
+// resolving phis by the predecessor taken.
+func enumPathsTo(f *ssa.Function, site ssa.Instruction, marks map[string]func(ssa.Instruction) bool, edgeMarks map[string]EdgePred, vals []ssa.Value, budget int) ([]pathObs, bool) {
+	var out []pathObs
+	overflow := false
+	used := map[[2]int]bool{}
+	type st struct {
+		phi    map[*ssa.Phi]ssa.Value
+		passed map[string]bool
+	}
+	clone := func(s st) st {
+		n := st{phi: map[*ssa.Phi]ssa.Value{}, passed: map[string]bool{}}
+		for k, v := range s.phi {
+			n.phi[k] = v
+		}
+		for k, v := range s.passed {
+			n.passed[k] = v
+		}
+		return n
+	}
+	resolve := func(s st, v ssa.Value) ssa.Value {
+		for i := 0; i < 20; i++ {
+			p, ok := v.(*ssa.Phi)
+			if !ok {
+				return v
+			}
+			r, ok := s.phi[p]
+			if !ok {
+				return v
+			}
+			v = r
+		}
+		return v
+	}
+	var walk func(b, pred *ssa.BasicBlock, s st, trace []int)
+	walk = func(b, pred *ssa.BasicBlock, s st, trace []int) {
+		if budget <= 0 {
+			overflow = true
+			return
+		}
+		budget--
+		trace = append(trace, b.Index)
+		// parallel phi assignment
+		newPhi := map[*ssa.Phi]ssa.Value{}
+		for _, in := range b.Instrs {
+			p, ok := in.(*ssa.Phi)
+			if !ok {
+				break
+			}
+			for i, pb := range b.Preds {
+				if pb == pred {
+					newPhi[p] = resolve(s, p.Edges[i])
+				}
+			}
+		}
+		for k, v := range newPhi {
+			s.phi[k] = v
+		}
+		for _, in := range b.Instrs {
+			if in == site {
+				o := pathObs{passed: s.passed, trace: trace}
+				for _, v := range vals {
+					o.vals = append(o.vals, resolve(s, v))
+				}
+				out = append(out, o)
+				return
+			}
+			for name, m := range marks {
+				if m(in) {
+					s.passed[name] = true
+				}
+			}
+			switch in.(type) {
+			case *ssa.Return, *ssa.Panic:
+				return
+			}
+		}
+		for si, succ := range b.Succs {
+			ek := [2]int{b.Index, si}
+			if used[ek] {
+				continue
+			}
+			used[ek] = true
+			n := clone(s)
+			for name, m := range edgeMarks {
+				if m(b, si) {
+					n.passed[name] = true
+				}
+			}
+			walk(succ, b, n, trace)
+			delete(used, ek)
+		}
+	}
+	if len(f.Blocks) > 0 {
+		walk(f.Blocks[0], nil, st{phi: map[*ssa.Phi]ssa.Value{}, passed: map[string]bool{}}, nil)
+	}
+	return out, overflow
+}
